@@ -556,6 +556,56 @@ def _hv_truth(prog):
     return hv_truth(prog)
 
 
+def match_quantified(prog: Program) -> RuleResult:
+    """match_any / select_any mark their pattern existential, match_all / select_all universal - and nothing else.  The names say it; the
+    statement defines the two meanings.  Decided from what each factory stores on the match it returns, helpers followed."""
+    r = RuleResult("MATCH-QUANTIFIED", "the quantified pattern factories set the flag their name says", floor=4)
+    want = {"match_any": ("existential", "universal"), "select_any": ("existential", "universal"), "match_all": ("universal", "existential"), "select_all": ("universal", "existential")}
+    n = 0
+    for fname, (on, off) in want.items():
+        try:
+            f = prog.func("match." + fname)
+        except Exception:
+            continue
+        n += 1
+        flags = {}
+
+        def scan(g, binds, depth=0):
+            for x in walk_local(g.node):
+                if isinstance(x, ast.Assign) and len(x.targets) == 1 and isinstance(x.targets[0], ast.Attribute) and x.targets[0].attr in ("existential", "universal"):
+                    v = x.value
+                    if isinstance(v, ast.Constant):
+                        flags[x.targets[0].attr] = v.value
+                    elif isinstance(v, ast.Name) and v.id in binds:
+                        flags[x.targets[0].attr] = binds[v.id]
+                if isinstance(x, ast.Call) and isinstance(x.func, ast.Name) and depth < 2:
+                    q = g.module.resolve(x.func)
+                    h = prog.functions.get(q) if q else None
+                    if h is not None and h.name not in ("match", "select", "entity_matching", "entity_selection"):
+                        b = {}
+                        a = h.node.args
+                        defaults = dict(zip([p_.arg for p_ in a.args][len(a.args) - len(a.defaults):], a.defaults))
+                        for p_ in a.args:
+                            if p_.arg in defaults and isinstance(defaults[p_.arg], ast.Constant):
+                                b[p_.arg] = defaults[p_.arg].value
+                        for p_, av in zip([p_.arg for p_ in a.args], x.args):
+                            if isinstance(av, ast.Constant):
+                                b[p_] = av.value
+                        for k in x.keywords:
+                            if isinstance(k.value, ast.Constant):
+                                b[k.arg] = k.value.value
+                        scan(h, b, depth + 1)
+
+        scan(f, {})
+        ok = flags.get(on) is True and not flags.get(off, False)
+        r.check(ok, f"{fname}#{on}", site(f), f"sets {flags}", f"marks the pattern {on}",
+                f"{fname} marks its pattern {dict(flags)}: it is built as {'at least one common element' if flags.get('existential') else 'the same set of elements' if flags.get('universal') else 'a plain match'} "
+                f"instead of {on}")
+    if n < 4:
+        raise AnalysisError("MATCH-QUANTIFIED: the four quantified pattern factories were not found")
+    return r
+
+
 def _domain_given(prog):
     # 'exactly the domain elements of type T': the root variable of a pattern ranges over the domain the pattern was given, an empty one included
     from .c13 import domain_given
@@ -612,4 +662,4 @@ def run(prog: Program, tier: str) -> List[RuleResult]:
     # match_any compiles to the existential quantifier: one answer per binding of the free variables
     return [guard(lambda: match_table(prog)), guard(lambda: match_kind(prog)), guard(lambda: match_iter(prog)), guard(lambda: match_factory(prog)), guard(lambda: match_memo_order(prog)), guard(lambda: match_ops(prog)), guard(lambda: ident_dedup(prog)), guard(lambda: domain_cache(prog)), guard(lambda: ep_quant(prog)),
             # selected inner parts are evaluated under the bindings of the matched element: the row threading of C01
-            guard(lambda: ep_thread(prog)), guard(lambda: _hv_truth(prog)), guard(lambda: _carry1(prog)), guard(lambda: match_select(prog)), guard(lambda: _domain_given(prog))]
+            guard(lambda: ep_thread(prog)), guard(lambda: _hv_truth(prog)), guard(lambda: _carry1(prog)), guard(lambda: match_select(prog)), guard(lambda: _domain_given(prog)), guard(lambda: match_quantified(prog))]
